@@ -257,6 +257,110 @@ theorem pass3Fold_inv (cnt1 : Cnt) (idx : List PB) : ∀ (rest : List PB) (s : S
     exact ih _ _ (pass3Step_inv cnt1 idx s pre x rest h)
 
 
+/-! ### blob counters of the statistics -/
+
+def isSingle (cnt1 : Cnt) (x : PB) : Bool := cnt1 x.e.blob == some 1
+def isDup (cnt1 : Cnt) (x : PB) : Bool := decide ((cnt1 x.e.blob).getD 0 ≥ 2)
+def isFree (cnt1 : Cnt) (x : PB) : Bool := !(isSingle cnt1 x) && !(isDup cnt1 x)
+
+/-! ### second pass -/
+
+theorem pass2Step_st (cnt : Cnt) (s : S2) (pb : PB) :
+    (pass2Step cnt s pb).st.bUsed = s.st.bUsed + (if isSingle cnt pb then 1 else 0) ∧
+    (pass2Step cnt s pb).st.bDup = s.st.bDup + (if isDup cnt pb then 1 else 0) ∧
+    (pass2Step cnt s pb).st.bUnused = s.st.bUnused + (if isFree cnt pb then 1 else 0) := by
+  unfold pass2Step isFree isSingle isDup
+  cases hc : cnt pb.e.blob with
+  | none => simp
+  | some n =>
+    by_cases h1 : n = 1
+    · subst h1; simp
+    · by_cases h2 : n ≥ 2
+      · simp [h1, h2]
+      · have : n = 0 := by omega
+        subst this; simp
+
+theorem pass2Fold_st (cnt : Cnt) (l : List PB) : ∀ (s : S2),
+    (l.foldl (pass2Step cnt) s).st.bUsed = s.st.bUsed + l.countP (isSingle cnt) ∧
+    (l.foldl (pass2Step cnt) s).st.bDup = s.st.bDup + l.countP (isDup cnt) ∧
+    (l.foldl (pass2Step cnt) s).st.bUnused = s.st.bUnused + l.countP (isFree cnt) := by
+  induction l with
+  | nil => intro s; simp
+  | cons pb l ih =>
+    intro s
+    simp only [List.foldl_cons, List.countP_cons]
+    obtain ⟨h1, h2, h3⟩ := ih (pass2Step cnt s pb)
+    obtain ⟨g1, g2, g3⟩ := pass2Step_st cnt s pb
+    rw [h1, h2, h3, g1, g2, g3]
+    omega
+
+/-! ### third pass -/
+
+structure StInv (cnt1 : Cnt) (b2 u2 : Nat) (s : S3) (pre rest : List PB) : Prop where
+  used_eq : s.st.bUsed = b2 + (pre.zip s.marks.reverse).countP (fun xm => xm.2)
+  dup_eq : s.st.bDup = (pre.zip s.marks.reverse).countP (fun xm => isDup cnt1 xm.1 && !xm.2) + rest.countP (isDup cnt1)
+  unused_eq : s.st.bUnused = u2
+
+theorem pass3Step_st (cnt1 : Cnt) (idx : List PB) (b2 u2 : Nat) (s : S3) (pre : List PB) (x : PB) (rest : List PB)
+    (hI : Inv3 cnt1 idx s pre (x :: rest)) (hmiss : ∀ b, cnt1 b ≠ some 0)
+    (h : StInv cnt1 b2 u2 s pre (x :: rest)) : StInv cnt1 b2 u2 (pass3Step s x) (pre ++ [x]) rest := by
+  obtain ⟨h1, h2, h3⟩ := h
+  have hlen := hI.len
+  have skip : StInv cnt1 b2 u2 { s with marks := false :: s.marks } (pre ++ [x]) rest := by
+    refine ⟨?_, ?_, h3⟩
+    · simp only; rw [zip_snoc pre s.marks x false hlen]; simpa [List.countP_append] using h1
+    · simp only; rw [zip_snoc pre s.marks x false hlen]
+      simp only [List.countP_append, List.countP_cons, List.countP_nil, Bool.not_false, Bool.and_true] at h2 ⊢
+      omega
+  unfold pass3Step
+  cases hc : s.cnt x.e.blob with
+  | none => simpa using skip
+  | some count =>
+    simp only
+    by_cases hc1 : count = 1
+    · simp only [hc1, if_true]; exact skip
+    · simp only [hc1, if_false]
+      -- the visited entry belongs to a duplicated blob
+      have hd : isDup cnt1 x = true := by
+        have h0 := hI.blob x.e.blob
+        unfold BlobSt at h0
+        unfold isDup
+        cases hcc : cnt1 x.e.blob with
+        | none => simp [hcc, hc] at h0
+        | some n =>
+          have hn0 : n ≠ 0 := fun h0' => hmiss x.e.blob (by rw [hcc, h0'])
+          by_cases hn : n = 1
+          · simp [hcc, hn, hc] at h0; exact absurd h0.1 hc1
+          · simp; omega
+      split
+      · refine ⟨?_, ?_, h3⟩
+        · simp only; rw [zip_snoc pre s.marks x true hlen]
+          simp only [List.countP_append, List.countP_cons, List.countP_nil]
+          simp; omega
+        · simp only; rw [zip_snoc pre s.marks x true hlen]
+          simp only [List.countP_append, List.countP_cons, List.countP_nil, hd, if_true] at h2 ⊢
+          simp; omega
+      · refine ⟨?_, ?_, h3⟩
+        · simp only; rw [zip_snoc pre s.marks x false hlen]; simpa [List.countP_append] using h1
+        · simp only; rw [zip_snoc pre s.marks x false hlen]
+          simp only [List.countP_append, List.countP_cons, List.countP_nil, Bool.not_false, Bool.and_true] at h2 ⊢
+          omega
+
+theorem pass3Fold_st (cnt1 : Cnt) (idx : List PB) (b2 u2 : Nat) (hmiss : ∀ b, cnt1 b ≠ some 0) :
+    ∀ (rest : List PB) (s : S3) (pre : List PB), Inv3 cnt1 idx s pre rest → StInv cnt1 b2 u2 s pre rest →
+      StInv cnt1 b2 u2 (rest.foldl pass3Step s) idx [] := by
+  intro rest
+  induction rest with
+  | nil =>
+    intro s pre hI h
+    have : pre = idx := by simpa using hI.split
+    subst this; exact h
+  | cons x rest ih =>
+    intro s pre hI h
+    simp only [List.foldl_cons]
+    exact ih _ _ (pass3Step_inv cnt1 idx s pre x rest hI) (pass3Step_st cnt1 idx b2 u2 s pre x rest hI hmiss h)
+
+
 /-! ### the result of `packInfoFromIndex` -/
 
 /-- entry of blob `b` that counts as used: the only entry of a used blob, or the selected one -/
@@ -296,14 +400,19 @@ theorem countP_zip_fst (l : List PB) : ∀ (ms : List Bool), ms.length = l.lengt
       simp only [List.zip_cons_cons, List.countP_cons]
       rw [ih ms (by simpa using h) q]
 
-structure Account (used : List BlobH) (idx : List PB) (pi : PackInfoResult) : Prop where
+structure Account (used : List BlobH) (idx : List PB) (st : Stats) (pi : PackInfoResult) : Prop where
   len : pi.marks.length = idx.length
   unused : ∀ p, un pi.ip p = (idx.zip pi.marks).countP (unmarkedP (countPass used idx).f p)
   one : ∀ b ∈ used, (idx.zip pi.marks).countP (usedMark (countPass used idx).f b) = 1
-  none : ∀ b, b ∉ used → (idx.zip pi.marks).countP (usedMark (countPass used idx).f b) = 0
+  zero : ∀ b, b ∉ used → (idx.zip pi.marks).countP (usedMark (countPass used idx).f b) = 0
+  marked : ∀ b, (idx.zip pi.marks).countP (markedB b) =
+    match (countPass used idx).f b with | none => 0 | some n => if n = 1 then 0 else 1
+  bUsed : pi.st.bUsed = st.bUsed + idx.countP (isSingle (countPass used idx).f) + (idx.zip pi.marks).countP (fun xm => xm.2)
+  bDup : pi.st.bDup = (idx.zip pi.marks).countP (fun xm => isDup (countPass used idx).f xm.1 && !xm.2)
+  bUnused : pi.st.bUnused = st.bUnused + idx.countP (isFree (countPass used idx).f)
 
 theorem packInfo_account {used : List BlobH} {idx : List PB} {st : Stats} {pi : PackInfoResult}
-    (h : packInfoFromIndex used idx st = .ok pi) : Account used idx pi := by
+    (h : packInfoFromIndex used idx st = .ok pi) (hst : st.bDup = 0) : Account used idx st pi := by
   unfold packInfoFromIndex at h
   simp only at h
   split at h
@@ -345,8 +454,13 @@ theorem packInfo_account {used : List BlobH} {idx : List PB} {st : Stats} {pi : 
       (∀ p, un (pass23 (countPass used idx) idx st).ip p =
         (idx.zip (pass23 (countPass used idx) idx st).marks.reverse).countP (unmarkedP (countPass used idx).f p)) ∧
       (∀ b, (idx.zip (pass23 (countPass used idx) idx st).marks.reverse).countP (markedB b) =
-        match (countPass used idx).f b with | none => 0 | some n => if n = 1 then 0 else 1) by
-    obtain ⟨k1, k2, k3⟩ := key
+        match (countPass used idx).f b with | none => 0 | some n => if n = 1 then 0 else 1) ∧
+      ((pass23 (countPass used idx) idx st).st.bUsed = st.bUsed + idx.countP (isSingle (countPass used idx).f) +
+          (idx.zip (pass23 (countPass used idx) idx st).marks.reverse).countP (fun xm => xm.2)) ∧
+      ((pass23 (countPass used idx) idx st).st.bDup =
+          (idx.zip (pass23 (countPass used idx) idx st).marks.reverse).countP (fun xm => isDup (countPass used idx).f xm.1 && !xm.2)) ∧
+      ((pass23 (countPass used idx) idx st).st.bUnused = st.bUnused + idx.countP (isFree (countPass used idx).f)) by
+    obtain ⟨k1, k2, k3, k4, k5, k6⟩ := key
     have hz1 : ∀ (q : PB → Bool), ((idx.zip (pass23 (countPass used idx) idx st).marks.reverse).countP fun xm => q xm.1) = idx.countP q :=
       countP_zip_fst idx _ (by simp [k1])
     have both0 : ∀ b, ((idx.zip (pass23 (countPass used idx) idx st).marks.reverse).countP
@@ -369,7 +483,7 @@ theorem packInfo_account {used : List BlobH} {idx : List PB} {st : Stats} {pi : 
             simp [markedB, hm2] at this
         · simp [h2]
       · simp [h1]
-    refine ⟨by simp [k1], k2, ?_, ?_⟩
+    refine ⟨by simp [k1], k2, ?_, ?_, k3, k4, k5, k6⟩
     · intro b hb
       have hs := usedMark_split (countPass used idx).f b (idx.zip (pass23 (countPass used idx) idx st).marks.reverse)
       rw [both0 b, hz1 (fun x => x.e.blob == b && ((countPass used idx).f x.e.blob == some 1)), hsingle b, k3 b] at hs
@@ -405,9 +519,21 @@ theorem packInfo_account {used : List BlobH} {idx : List PB} {st : Stats} {pi : 
           right; left
           exact ⟨_, rfl, by omega, by omega, trivial⟩
       · simp [hunused b hb]
+    have hmiss : ∀ b, cnt1 b ≠ some 0 := by
+      intro b hb0
+      by_cases hb : b ∈ used
+      · obtain ⟨hc, ho⟩ := hused b hb
+        rw [hc] at hb0; injection hb0 with hb0; omega
+      · rw [hunused b hb] at hb0; simp at hb0
+    have hst2 := pass2Fold_st cnt1 idx { ip := ipOf (hdrSizes idx), st := st, hasDup := false }
+    rw [hs2] at hst2
+    have hsinit : StInv cnt1 (st.bUsed + idx.countP (isSingle cnt1)) (st.bUnused + idx.countP (isFree cnt1))
+        { cnt := cnt1, ip := s2.ip, st := s2.st, marks := [] } [] idx :=
+      ⟨by simpa using hst2.1, by simpa [hst] using hst2.2.1, by simpa using hst2.2.2⟩
+    have hsfin := pass3Fold_st cnt1 idx _ _ hmiss idx _ [] hinit hsinit
     have hfin := pass3Fold_inv cnt1 idx idx _ [] hinit
     obtain ⟨_, flen, fun_, fblob⟩ := hfin
-    refine ⟨flen, fun p => by simpa using fun_ p, ?_⟩
+    refine ⟨flen, fun p => by simpa using fun_ p, ?_, hsfin.used_eq, by simpa using hsfin.dup_eq, hsfin.unused_eq⟩
     intro b
     have hb := fblob b
     unfold BlobSt at hb
@@ -430,7 +556,12 @@ theorem packInfo_account {used : List BlobH} {idx : List PB} {st : Stats} {pi : 
     have hrev : (idx.map fun _ => false).reverse = idx.map fun _ => false := by
       rw [List.map_const', List.reverse_replicate]
     simp only [hrev]
-    refine ⟨by simp, ?_, ?_⟩
+    have hst2 := pass2Fold_st cnt1 idx { ip := ipOf (hdrSizes idx), st := st, hasDup := false }
+    rw [hs2] at hst2
+    refine ⟨by simp, ?_, ?_, ?_, ?_, by simpa using hst2.2.2⟩
+    rotate_left 2
+    · rw [countP_zip_false]; simpa using hst2.1
+    · rw [countP_zip_false]; simpa [hst] using hst2.2.1
     · intro p
       rw [countP_zip_false, hun2 p]
       apply List.countP_congr
